@@ -270,7 +270,12 @@ Theorem ccsei_spec self other pos m v w r w' :
   | ER _ => w_nodes w' self = Some ns
   | OK c =>
     w_nodes w' self = Some (set_content ns (insert_at (n_content ns) (N.to_nat pos) (CElem c))) /\
-    exists w1, deep_copy T (fuel_of w) other v w = Val (OK c, w1) /\ CopyRel T w1 w' self c
+    exists w1, deep_copy T (fuel_of w) other v w = Val (OK c, w1) /\ CopyRel T w1 w' self c /\
+    (* the registration walk ran on a world w3 that has the final nodes except for the destination's content list *)
+    exists w3 w4 path,
+      register_subtree T (fuel_of w3) m path c w3 = Val (OK tt, w4) /\
+      w_models w' = w_models w4 /\
+      (forall i, i <> self -> w_nodes w' i = w_nodes w3 i) /\ w_nodes w3 self = Some ns
   end.
 Proof.
   intros Cw H. unfold create_copied_sub_element_inner in H.
@@ -387,7 +392,7 @@ Proof.
     - eapply IdxOnly_trans; eauto. }
   apply wbind_inv in H as [(u4 & w4 & E4 & H) | (e & E4 & ->)].
   2: { destruct (REG _ _ E4) as (C4 & F4 & N4). split; auto. split; auto. exists ns. split; auto. rewrite N4; auto. }
-  destruct (REG _ _ E4) as (Cw4 & Fr4 & Hnodes4). clear REG E4.
+  destruct (REG _ _ E4) as (Cw4 & Fr4 & Hnodes4). clear REG. destruct u4.
   (* insertion into the destination's content list *)
   unfold content_insert in H.
   apply wbind_inv in H as [(u5 & w5 & E5 & H) | (e & E5 & ->)].
@@ -414,6 +419,9 @@ Proof.
     intros i Hi Hne. rewrite upd_neq by auto. auto. }
   exists ns. split; auto. split. { cbn. apply upd_eq. }
   exists w1. split; auto.
+  split.
+  2: { exists w3, w4, path. split; [exact E4|]. split; [reflexivity|]. split; auto.
+       intros i Hi. cbn. rewrite upd_neq by auto. rewrite Hnodes4. reflexivity. }
   exists nc1. split; auto. split. { cbn. rewrite upd_neq by auto. rewrite Hnodes4. exact Hc3. }
   destruct Hrest as [Hrest | (s & rest & sn & name & orig & Hcont & Hsn & Hcs & Hs3 & HNk & Hin & Hrest)].
   - left. intros i His Hic. cbn. rewrite upd_neq by auto. rewrite Hnodes4. auto.
